@@ -21,6 +21,8 @@ RULE = (
     "instances, constants present with their value, wrong constants on input are ignored; the bytes and YAML forms are "
     "also written to a file and read with parse_file. Values include long prose (line folding), unicode line breaks, "
     "SIValue / NumValue given as string, number, dict and object, explicit None for required fields, improper numbers. "
+    "Extras also carry names of model methods, nan / inf and a field given by alias and by name at once (refused at "
+    "construction or round-tripping); classes with a custom Parser are documents of their own. "
     "Shard units: every name of the unit registry as PintUnit and in PintQuantity(magnitude, unit) (exhaustive). Non-trivial = instance with "
     ">=1 of {Duration, unit, quantity, nested object, list, alias, non-ASCII, long float}; distinct by (schema, "
     "populated keys, value kinds)"
